@@ -506,10 +506,16 @@ static void oracle_walks(out &o, const std::string &op, int a, int b, const std:
     else if (op == "ccheck_rev") { if (atoi(val.c_str()) != first_return(pv, a, b)) o.fail("dlist_check_reversed != first return time of the backward walk"); }
     else if (op == "ccorrect")
     {
+        // after the repair (round 3b): true iff the forward walk returns to a within 1000 steps AND every node of that
+        // cycle is pointed back at by its successor (= a is on a well-formed ring of at most 1000 nodes)
         int f = first_return(nx, a, 1000), r = first_return(pv, a, 1000);
-        bool want = f >= 0 && r >= 0 && f == r;
-        if ((val == "1") != want) o.fail("dlist_is_correct != (both walks return within 1000 steps after the same number of steps)");
+        bool back = true;
+        if (f >= 0) { int it = a; for (int k = 0; k <= f; k++) { if (pv[nx[it]] != it) back = false; it = nx[it]; } }
+        bool want = f >= 0 && back;
+        if ((val == "1") != want) o.fail("dlist_is_correct != (the forward walk returns within 1000 steps and every visited node is pointed back at by its successor)");
         if (f < 0) o.tag("correct-fwd-fails"); else if (r < 0) o.tag("correct-bwd-fails"); else if (f != r) o.tag("correct-lengths-differ");
+        if (f >= 0 && !back) o.tag("correct-backlink-wrong");
+        if (f >= 0 && !back && r == f) o.tag("correct-backlink-wrong-same-length");
     }
 }
 // two-member objects: every ring of the reference, read from every member
@@ -734,6 +740,27 @@ static void run_op(const std::vector<std::string> &w, const std::string &, out &
             if (toks[k][0] == '?') o.fail("macro #" + std::to_string(k) + " returned a pointer that is no object of the fixture");
         }
         o.tag(tu ? "macros-C-O2" : "macros-C++-O1");
+    }
+    else if (op == "xcorrect_poke")
+    {
+        // igris::dlist::is_correct() on a hand-corrupted ring (the C++ node's links are public fields): it must RETURN
+        // (the old circular_size() comparison never did on a lasso) and answer "well-formed ring"
+        int m = A(1);
+        XList *L = new XList();
+        XItem *it[3];
+        for (int i = 0; i < 3; i++) { it[i] = new XItem(); it[i]->key = i; L->move_back(*it[i]); }
+        igris::dlist_node *hd = xhead_of(L), *n1 = &it[0]->lnk, *n2 = &it[1]->lnk, *n3 = &it[2]->lnk;
+        if (m == 1) n3->next = n2;
+        else if (m == 2) { hd->prev = n1; n1->prev = n2; n2->prev = n3; n3->prev = hd; }
+        else if (m == 3) n2->prev = hd;
+        else if (m == 4) hd->prev = n1;
+        val = L->is_correct() ? "1" : "0";
+        if ((val == "1") != (m == 0)) o.fail("igris::dlist::is_correct() on a hand-corrupted ring (mode " + std::to_string(m) + ") = " + val);
+        // restore before the destructors unlink the nodes
+        hd->next = n1; n1->next = n2; n2->next = n3; n3->next = hd; hd->prev = n3; n3->prev = n2; n2->prev = n1; n1->prev = hd;
+        for (auto *p : it) delete p;
+        delete L;
+        o.tag(m ? "cpp-correct-corrupt" : "cpp-correct-intact");
     }
     else if (op == "premain")
     {
@@ -1882,6 +1909,7 @@ static void gen_round3(rng &r, bool th)
 {
     auto S = [](long v) { return std::to_string(v); };
     emit("reset c 2"); emit("widths"); emit("premain");
+    for (int m = 0; m < 5; m++) emit("xcorrect_poke " + std::to_string(m));
     for (int i = 0; i < 4; i++) { emit("mmac 0 " + S(i)); emit("mmac 1 " + S(i)); }
     emit("premain");
     // the closed-form ring of the model against the ring the code builds, small enough to be dumped
